@@ -20,14 +20,15 @@ import ScrapliModel.PromptClass
   Reserved sub-mode names are removed from `sub` where the vendor uses them for another mode:
     IOS-XE:  names ending in `tcl`         (the `(…tcl)` decoration is tclsh)
     NX-OS:   names starting with `tcl`; `s` and `s-…`   (`(config-tcl)` is tclsh; `(config-s)`,
-                                            `(config-s-…)` are configuration sessions)
+                                            `(config-s-…)` are configuration sessions); names that
+                                            themselves contain `config-` (no such sub-mode exists)
     EOS:     `s-…`                         (`(config-s-<name>)` is a configuration session)
   Inherent ambiguity removed: an NX-OS hostname ending in `-tcl` (any case) at privilege_exec prints
   exactly what tclsh prints for the host without the suffix.
   Restrictions that are PREDICATES OF OPEN FINDINGS (the `…Full` lists are the same modes without them,
   their failing obligations carry machine-checked witnesses):
     F12 Junos  configuration / shell prompts do not contain `root`
-    F24 NX-OS  privilege_exec hostname does not contain `-tcl`
+    F24 NX-OS  privilege_exec hostname does not contain `-tcl`, configuration hostname does not contain `config-`
     F25 NX-OS  with a registered session: configuration sub-mode name does not start with `s`
     F26 EOS    session prompt head does not contain `_`
 -/
@@ -87,25 +88,26 @@ def iosxr : List Mode := [
 
 /-! ### Cisco NX-OS — optional `(maint-mode)`; tclsh in its five forms; configuration sessions -/
 def maintOpt : RE := opt (s "(maint-mode)")
-def nxosSub : RE := minus sub (alts [startsWith "tcl", s "s", startsWith "s-"])
+def nxosSub : RE := minus sub (alts [startsWith "tcl", s "s", startsWith "s-", containsS "config-"])
 def endsTclCI : RE := cat all (cats [s "-", oneOf "tT", oneOf "cC", oneOf "lL"])
 def nxosPrivHostFull : RE := minus host endsTclCI
 def nxosPrivHost : RE := minus host (alt endsTclCI (containsS "-tcl"))
 def nxosExec : Mode := ⟨"exec", ["exec"], cats [host, maintOpt, s ">", blankOpt]⟩
 def nxosPriv (h : RE) : Mode := ⟨"privilege_exec", ["privilege_exec"], cats [h, maintOpt, s "#", blankOpt]⟩
-def nxosConfig (sb : RE) : Mode := ⟨"configuration", ["configuration"], cats [host, maintOpt, configDeco sb, blankOpt]⟩
+def nxosConfig (h sb : RE) : Mode := ⟨"configuration", ["configuration"], cats [h, maintOpt, configDeco sb, blankOpt]⟩
+def nxosCfgHost : RE := minus host (containsS "config-")
 def nxosTclsh : Mode := ⟨"tclsh", ["tclsh"], cat (alts [cat host (s "-tcl#"), cat host (s "(config-tcl)#"), s ">",
       cat host (s "(maint-mode-tcl)#"), cat host (s "(maint-mode)(config-tcl)#")]) blankOpt⟩
-def nxos : List Mode := [nxosExec, nxosPriv nxosPrivHost, nxosConfig nxosSub, nxosTclsh]
-def nxosFull : List Mode := [nxosPriv nxosPrivHostFull]
+def nxos : List Mode := [nxosExec, nxosPriv nxosPrivHost, nxosConfig nxosCfgHost nxosSub, nxosTclsh]
+def nxosFull : List Mode := [nxosPriv nxosPrivHostFull, nxosConfig host nxosSub]
 /-- after `register_configuration_session`: every registered session shows `host(config-s…)#`
     (the NX-OS pattern does not depend on the name: all sessions form one share group) -/
 def nxosSessionMode (names : List String) : Mode :=
   ⟨"session", names, cats [hostN 32, s "(config-s", opt (cat (s "-") sub), s ")#", blankOpt]⟩
 def nxosS (names : List String) : List Mode :=
-  [nxosExec, nxosPriv nxosPrivHost, nxosConfig (minus sub (alt (startsWith "tcl") (startsWith "s"))), nxosTclsh,
+  [nxosExec, nxosPriv nxosPrivHost, nxosConfig nxosCfgHost (minus sub (alts [startsWith "tcl", startsWith "s", containsS "config-"])), nxosTclsh,
    nxosSessionMode names]
-def nxosSFull : List Mode := [nxosConfig nxosSub]
+def nxosSFull : List Mode := [nxosConfig nxosCfgHost nxosSub]
 
 /-! ### Arista EOS — `host>` (EOS prints no `user@`); sessions `host(config-s-<first 6 chars of name>[-<sub>])#` -/
 def eosHead : RE := host
